@@ -29,6 +29,8 @@ def gen_scenario(rng, index):
         progs.append(gen.gen_program(rng, f"r{index}t{len(progs)}", **opts))
     for _ in range(rng.choice([1, 2, 3, 4])):
         progs.append(gen.variant_of(rng, rng.choice(progs[:n_base]), f"r{index}t{len(progs)}"))
+    if rng.random() < 0.3:
+        progs.append(gen.near_variant_of(rng, rng.choice(progs), f"r{index}t{len(progs)}"))
     texts = []
     for p in progs:
         texts.append({"tid": p.tid, "text": p.text, "splitters": p.splitters,
